@@ -323,8 +323,41 @@ Theorem C04_tables_match_rfc :
 Proof. repeat split; reflexivity. Qed.
 Print Assumptions C04_tables_match_rfc.
 
-(** Default coefficient probabilities (13.5), their update probabilities (13.4) and the
-    key-frame sub-block mode probabilities (11.5): shape and position-weighted checksums. *)
+(** The specification decoder's tables are the literals frozen in Vp8Tables.v (RFC 6386 values; it
+    does not read the tables regenerated from the Go source).  One obligation per table: the table
+    regenerated from /repo equals the frozen one - a mutated table breaks its obligation here, and
+    the Go decoder then disagrees with the specification decoder on streams that reach the entry. *)
+Theorem C04_table_zigzag : WebpGen.Tables.lossy_KZigzag = Vp8Tables.zigzag.
+Proof. reflexivity. Qed.
+Print Assumptions C04_table_zigzag.
+Theorem C04_table_bands : WebpGen.Tables.lossy_KBands = Vp8Tables.bands.
+Proof. reflexivity. Qed.
+Print Assumptions C04_table_bands.
+Theorem C04_table_dc : WebpGen.Tables.lossy_KDcTable = Vp8Tables.dc_table.
+Proof. reflexivity. Qed.
+Print Assumptions C04_table_dc.
+Theorem C04_table_ac : WebpGen.Tables.lossy_KAcTable = Vp8Tables.ac_table.
+Proof. reflexivity. Qed.
+Print Assumptions C04_table_ac.
+Theorem C04_table_coeff_probs0 : WebpGen.Tables.lossy_CoeffsProba0 = Vp8Tables.coeff_probs0.
+Proof. reflexivity. Qed.
+Print Assumptions C04_table_coeff_probs0.
+Theorem C04_table_coeff_update_probs : WebpGen.Tables.lossy_CoeffsUpdateProba = Vp8Tables.coeff_update_probs.
+Proof. reflexivity. Qed.
+Print Assumptions C04_table_coeff_update_probs.
+Theorem C04_table_kf_bmode_probs : WebpGen.Tables.lossy_KBModesProba = Vp8Tables.kf_bmode_probs.
+Proof. reflexivity. Qed.
+Print Assumptions C04_table_kf_bmode_probs.
+Theorem C04_table_cat_extra_bits :
+  WebpGen.Tables.lossy_KCat3 = pcat3 ++ [0] /\ WebpGen.Tables.lossy_KCat4 = pcat4 ++ [0] /\
+  WebpGen.Tables.lossy_KCat5 = pcat5 ++ [0] /\ WebpGen.Tables.lossy_KCat6 = pcat6 ++ [0].
+Proof. repeat split; reflexivity. Qed.
+Print Assumptions C04_table_cat_extra_bits.
+Theorem C04_table_bmode_tree : WebpGen.Tables.lossy_KYModesIntra4 = flat_tree bmode_tree 9.
+Proof. reflexivity. Qed.
+Print Assumptions C04_table_bmode_tree.
+
+(** shape of the frozen probability tables (4 x 8 x 3 x 11; 10 x 10 x 9) and their checksums *)
 Theorem C04_probability_tables_frozen :
   (length (flat4 coeff_probs0), wsum (flat4 coeff_probs0), sumz (flat4 coeff_probs0)) = (1056%nat, 112461, 174918) /\
   (length (flat4 coeff_update_probs), wsum (flat4 coeff_update_probs), sumz (flat4 coeff_update_probs)) = (1056%nat, 2904, 268469) /\
